@@ -587,7 +587,7 @@ func (f *ledgerFam) Gen(r *hx.Run) {
 		}
 	}
 	// 2. valid transactions
-	ntx := r.Pick(500, 20000)
+	ntx := r.Pick(500, 5000)
 	for i := 0; i < ntx; i++ {
 		newCase("tx")
 		tx := f.genTx(r, maxSigs)
@@ -682,7 +682,7 @@ func (f *ledgerFam) Gen(r *hx.Run) {
 		r.Nontrivial(fmt.Sprintf("attr/%s/%d", outClass(out), lenBucket(len(raw))))
 	}
 	// 4. headers
-	nh := r.Pick(300, 10000)
+	nh := r.Pick(300, 4000)
 	for i := 0; i < nh; i++ {
 		newCase("hdr")
 		h := f.genHeader(r)
@@ -716,7 +716,7 @@ func (f *ledgerFam) Gen(r *hx.Run) {
 		}
 	}
 	// 5. blocks
-	nb := r.Pick(120, 3000)
+	nb := r.Pick(120, 1000)
 	for i := 0; i < nb; i++ {
 		newCase("blk")
 		blk := &types.Block{Header: f.genHeader(r)}
